@@ -56,6 +56,7 @@ type Env7 struct {
 	Binds   []*Field `json:"binds"`
 	Carrier string   `json:"carrier"` // map | struct | ptrstruct
 	Raw     bool     `json:"raw,omitempty"` // hand the Callable a *val.Env built by conv.ValEnvOf
+	NilEnv  bool     `json:"nil_env,omitempty"` // the environment itself is a typed nil pointer / nil map
 }
 
 func cloneVT(v interface{}, out interface{}) {
@@ -319,10 +320,20 @@ func badValue(kind string) interface{} {
 	return nil
 }
 
+func (e *Env7) isMap() bool { return e.Carrier == "map" || e.Carrier == "ptrmap" }
+
 // host builds the Go value handed to Compile / the Callable.
 func (e *Env7) host() interface{} {
+	if e.NilEnv {
+		// everything is missing: a typed nil pointer to the struct type / a nil map
+		if e.isMap() {
+			var m map[string]interface{}
+			return m
+		}
+		return reflect.Zero(reflect.PtrTo(structType(e.Binds))).Interface()
+	}
 	switch e.Carrier {
-	case "map":
+	case "map", "ptrmap":
 		m := map[string]interface{}{}
 		for _, b := range e.Binds {
 			if b.V.Bad != "" {
@@ -342,15 +353,23 @@ func (e *Env7) host() interface{} {
 				m[b.Name] = v.Interface()
 			}
 		}
+		if e.Carrier == "ptrmap" {
+			return &m
+		}
 		return m
 	default:
 		// struct carriers cannot hold unconvertible kinds except through interface fields; keep those for map carriers
 		t := structType(e.Binds)
 		rv := reflect.New(t).Elem()
 		fillStruct(rv, e.Binds)
-		if e.Carrier == "ptrstruct" {
+		if e.Carrier == "ptrstruct" || e.Carrier == "ptrptrstruct" {
 			p := reflect.New(t)
 			p.Elem().Set(rv)
+			if e.Carrier == "ptrptrstruct" {
+				pp := reflect.New(p.Type())
+				pp.Elem().Set(p)
+				return pp.Interface()
+			}
 			return p.Interface()
 		}
 		return rv.Interface()
@@ -540,7 +559,7 @@ func (g *gen7) scramble(v *VT) {
 
 func (g *gen7) env() *Env7 {
 	r := g.r
-	e := &Env7{Carrier: r.pick([]string{"map", "struct", "ptrstruct"})}
+	e := &Env7{Carrier: r.pick([]string{"map", "struct", "ptrstruct", "map", "struct", "ptrmap", "ptrptrstruct"})}
 	n := 1 + r.intn(4)
 	names := []string{"x", "xs", "X", "o", "ob", "l", "m", "p", "q", "x_1", "Y", "len", "inc"} // the last two coincide with a built-in and a registered function
 	off := r.intn(len(names))
@@ -654,7 +673,7 @@ func genProg7(r *rng, e *Env7) string {
 // --- mutations ---------------------------------------------------------------------
 
 var mutKinds = []string{"same", "same", "contents", "extra", "numkind", "ptrflip", "carrier", "reorder", "reorder", "reorder-top",
-	"maybe-flip", "retype-maybe", "tagstyle", "embed", "time-named", "near-miss", "raw", "array", "empty", "empty-retype", "hetero", "hetero", "drop", "retype-top", "retype-deep", "field-add", "field-remove", "field-rename", "nil-flip", "bad"}
+	"maybe-flip", "retype-maybe", "tagstyle", "embed", "time-named", "near-miss", "nil-env", "raw", "array", "empty", "empty-retype", "hetero", "hetero", "drop", "retype-top", "retype-deep", "field-add", "field-remove", "field-rename", "nil-flip", "bad"}
 
 // collect object nodes (with their depth) below the bindings
 func objNodes(e *Env7) []*VT {
@@ -762,7 +781,7 @@ func (g *gen7) mutate(a *Env7, kind string) *Env7 {
 			}
 		}
 	case "carrier":
-		e.Carrier = r.pick([]string{"map", "struct", "ptrstruct"})
+		e.Carrier = r.pick([]string{"map", "struct", "ptrstruct", "ptrmap", "ptrptrstruct"})
 	case "raw":
 		e.Raw = true
 	case "reorder":
@@ -791,6 +810,8 @@ func (g *gen7) mutate(a *Env7, kind string) *Env7 {
 			}
 			return false
 		})
+	case "nil-env":
+		e.NilEnv = true
 	case "near-miss":
 		// a compile-time name is missing, a name that differs from it only in case or by
 		// surrounding blanks is there instead (same value): still missing
@@ -798,7 +819,7 @@ func (g *gen7) mutate(a *Env7, kind string) *Env7 {
 			b := e.Binds[r.intn(len(e.Binds))]
 			var nm string
 			k := 3
-			if e.Carrier != "map" {
+			if !e.isMap() {
 				k = 1 // struct tags are trimmed by the library: only the case variant is another name
 			}
 			switch r.intn(k) {
@@ -1025,18 +1046,21 @@ func (g *gen7) mutate(a *Env7, kind string) *Env7 {
 
 // model: does B conform to A?  (and is B convertible at all)
 func conforms(a, b *Env7) (accept bool, why string) {
+	if b.NilEnv {
+		return false, "the environment is a nil pointer / nil map: every name is missing"
+	}
 	for _, x := range b.Binds {
 		if !x.Nil && !x.V.convertible() {
 			return false, "unconvertible host data in " + x.Name
 		}
-		if x.Nil && b.Carrier == "map" {
+		if x.Nil && b.isMap() {
 			return false, "nil pointer at top level of a map environment" // conv cannot type a nil interface payload... (typed nil pointer)
 		}
 	}
 	// the name of a struct field is its tag with surrounding blanks removed (documented tag
 	// syntax `yae:"name, maybe"`); a map key is the name as it stands
 	eff := func(e *Env7, n string) string {
-		if e.Carrier != "map" {
+		if !e.isMap() {
 			return strings.TrimSpace(n)
 		}
 		return n
@@ -1377,7 +1401,7 @@ func runHist7(h *Hist7, x *evalCtx) hist7Result {
 }
 
 // dominant names the mutation a violation is attributed to in its signature.
-var mutPriority = []string{"rawbot", "rawput", "again", "bad", "hetero", "near-miss", "time-named", "empty-retype", "retype-maybe", "drop", "retype-top", "retype-deep", "field-add", "field-remove", "field-rename", "nil-flip",
+var mutPriority = []string{"rawbot", "rawput", "again", "bad", "nil-env", "hetero", "near-miss", "time-named", "empty-retype", "retype-maybe", "drop", "retype-top", "retype-deep", "field-add", "field-remove", "field-rename", "nil-flip",
 	"reorder", "reorder-top", "raw", "array", "empty", "embed", "tagstyle", "carrier", "ptrflip", "numkind", "maybe-flip", "extra", "contents", "same"}
 
 func dominant(muts []string) string {
